@@ -55,6 +55,7 @@ ASSUME_COMMON = [
 ]
 
 PROPS = {}
+NEVER_RETURNS = ('functions.OP_SET_FLAG',)     # known finding D8: the instruction can only raise on this tree
 
 PROPS['C10'] = {
     'functions': CODECS + ERRORS,
@@ -84,6 +85,7 @@ PROPS['C07'] = {
     'select': [r'stack\.(count|maxlen|item-size)', r'tape\.pointer', r'pointer\.monotone', r'below-maxlen', r'/alloc/',
                r'/variant', r'size>=0', r'n>=0', r'charged', r'callstack', r'/count', r'^classes\.', r'result\.size',
                r'(OP_CALL|OP_EVAL|OP_LOOP|OP_RANDOM)/refine/', r'limits', r'stack_ok'],
+    'never_returns': NEVER_RETURNS,
     'trusted_base': TRUSTED_COMMON,
     'assumptions': ASSUME_COMMON + ['interpreter resources (Python recursion depth, allocator) are not modelled: the '
                                     'allocation ghost bounds the size argument of allocating primitives; see known '
@@ -94,8 +96,9 @@ PROPS['C07'] = {
 }
 
 PROPS['C08'] = {
-    'functions': sorted(set(RUN + all_ops())),
-    'select': [r'ks-frame', r'run_script/post/cache_ok'],
+    'never_returns': NEVER_RETURNS,
+    'functions': sorted(set(RUN + all_ops() + CLASSES)),
+    'select': [r'ks-frame', r'run_script/post/cache_ok', r'item-is-bytes', r'^classes\.Stack\.put/refine'],
     'trusted_base': TRUSTED_COMMON,
     'assumptions': ASSUME_COMMON + ['as the property says: no plugin or contract installed (the frame clause is '
                                     'conditional on no_plugins_at_all)'],
@@ -104,6 +107,7 @@ PROPS['C08'] = {
 }
 
 PROPS['C09'] = {
+    'never_returns': NEVER_RETURNS,
     'functions': sorted(set(RUN + all_ops())),
     'select': [r'site\[', r'flags-frame', r'plugins-once', r'config\.', r'(OP_SET_FLAG|OP_UNSET_FLAG)/', r'registry\.',
                r'flag\[.*\]\.present', r'flag\d+\.bool', r'refine/args\[run_tape', r'plugins\.'],
@@ -115,6 +119,7 @@ PROPS['C09'] = {
 }
 
 PROPS['C01'] = {
+    'never_returns': NEVER_RETURNS,
     'functions': sorted(set(CLASSES + ERRORS + RUN + all_ops())),
     'select': [r'returned-protocol', r'/clean', r'terminated', r'clean-on-raise', r'^functions\.run_auth_scripts/',
                r'returns-to-caller', r'never-raises', r'pre\[run_tape', r'pre\[<OPC>', r'^functions\.run_tape/',
@@ -128,6 +133,7 @@ PROPS['C01'] = {
 }
 
 PROPS['C06'] = {
+    'never_returns': NEVER_RETURNS,
     'functions': sorted(set(CLASSES + ERRORS + CODECS + HELPERS + RUN + all_ops())),
     'select': [r'/refine/', r'def-pointer-restored', r'returns-to-caller', r'/operand', r'/post/(stored|data|shares)',
                r'/loop\d+/inv', r'^classes\.', r'^functions\.(bytes_|int_to|uint_|float_|not_bytes|clamp|H_|derive|aggregate)'],
